@@ -89,6 +89,9 @@ class RefCoapAccessory:
             return None
         if action and action.get("action") == "network-error":
             raise NetworkError("simulated network error")
+        if action and action.get("action") == "error-empty":
+            # the accessory's CoAP stack refuses the request with an error class code and no payload (5.03 while busy, 4.00, 4.13 ...)
+            return Message(code=getattr(Code, action.get("code", "SERVICE_UNAVAILABLE")))
         out = b""
         for i, (op, tid, iid, body) in enumerate(pdus):
             st, rb = self.handle_pdu(op, iid, body)
